@@ -103,7 +103,7 @@ def tunnel_scenarios(tier):
     # client does meanwhile -- sends more tunnel bytes, half-closes -- every upstream byte must still arrive.
     # (Slow / one-byte client reads and short writes come from the R and S deviations.)
     for fname, fl in flagsets:
-        for un in ('text7', 'bin') + (('s64',) if tier == 'thorough' else ()):
+        for un in ('text7', 'bin', 's64'):      # s64: more than the proxy has read by the time the client's bytes bounce
             u2c = PAYLOADS[un]
             for upi, up in enumerate(packings(u2c, tier, 2 if tier == 'quick' else 4)):
                 for cname, tail in (('talks-on', [('send', b'ab'), ('wait_recv', len(ACK) + 1), ('send', b'cd'), ('wait_eof',)]),
@@ -116,6 +116,7 @@ def tunnel_scenarios(tier):
                         origins={('10.0.0.2', 443): (lambda up=up: RawOrigin(greeting=up, finally_='close'))},
                         dns={'t.test': '10.0.0.2'}, kinds='ARS', horizon=3000,
                         features={'role': 'tunnel', 'flags': fname, 'c2u': b'abcd', 'u2c': u2c, 'upstream_closes_first': True,
+                                  'client_behaviour': cname,
                                   '_expect_c': ACK + u2c, '_expect_eof': True}))
     # the CLIENT finishes first: it uploads far more than the socket buffers hold and closes at once, while the
     # upstream drains slowly -- every uploaded byte must still reach the upstream
